@@ -735,6 +735,16 @@ if int(m.group(3)) != 0:
     die("from_windows_exception: the access type is no longer read from exception_information[0] (coq/C19/Source.v greason_of takes info0)")
 win_av_guard = "(nparams %s %s)" % ({">=": ">=?", ">": ">?", "==": "=?"}[m.group(1)], m.group(2))
 
+# ------------------------------------------------------------------ op_analysis.rs get_registers
+gr = norm(fn_body(oa, r"fn get_registers\(i: Instruction\) -> BTreeSet<&'static str>\s*\{", "get_registers"))
+m = re.fullmatch(r"let mut ret = BTreeSet::new\(\); for op in 0\.\.i\.operand_count\(\) \{ "
+                 r"if let Some\(reginfo\) = MemoryOperandInfo::try_from_operand\(i\.operand\(op\)\) \{ "
+                 r"((?:if let Some\(reg\) = reginfo\.(?:base|index)_reg \{ ret\.insert\(reg\.name\(\)\); \} )*)\} \} ret", gr)
+if not m:
+    die("get_registers: not the recognised loop (every operand that is a memory operand contributes its base and/or index register to a "
+        "BTreeSet<&'static str>):\n" + gr)
+gr_items = re.findall(r"reginfo\.(base|index)_reg", m.group(1))
+
 # ------------------------------------------------------------------ emit
 L = []
 L.append("(* GENERATED by translate/c19_src.py from minidump-processor/src/{processor,process_state}.rs and minidump/src/minidump.rs — do not edit *)")
@@ -837,6 +847,9 @@ L.append("Definition G_MAPS_W_BIT : Z := %d." % maps_bits["writable"])
 L.append("Definition G_MAPS_X_BIT : Z := %d." % maps_bits["executable"])
 L.append("(* CrashReason::from_windows_exception: EXCEPTION_ACCESS_VIOLATION becomes WindowsAccessViolation(type of exception_information[0]) under this guard *)")
 L.append("Definition g_win_av_guard (nparams : Z) : bool := %s." % win_av_guard)
+L.append("(* get_registers: which registers of a memory operand enter the set the register pass iterates over *)")
+L.append("Definition G_GETREGS_BASE : bool := %s." % ("true" if "base" in gr_items else "false"))
+L.append("Definition G_GETREGS_INDEX : bool := %s." % ("true" if "index" in gr_items else "false"))
 out = "\n".join(L) + "\n"
 os.makedirs(outdir, exist_ok=True)
 pth = os.path.join(outdir, "C19Src.v")
